@@ -24,7 +24,7 @@ RULE = ('part RT (round trip): objects.inv written by SphinxInventoryWriter for 
         'reported. A fuzz input is non-trivial if it is not a valid inventory; distinct by content hash.')
 ASSUME = ['Sphinx 9.1 loader is a second, independent reader', 'zlib and the UTF-8 decoder belong to the interpreter',
           'a corrupted line that still parses (possibly under another name/domain) is usable by definition']
-DECIDING = {'fuzz_inputs': 5000, 'line_corruptions': 2000, 'roundtrip_entries': 500, 'sphinx_entries': 500, 'other_lines_checked': 5000}
+DECIDING = {'fuzz_inputs': 5000, 'line_corruptions': 2000, 'roundtrip_entries': 500, 'sphinx_entries': 500, 'other_lines_checked': 5000, 'inventories_with_many_damaged_lines': 500}
 CPU_S = 900
 CRASH_IS_VIOLATION = True
 
@@ -277,7 +277,8 @@ def _corrupt(r, line: str) -> Tuple[str, str]:
 def _run_LC(case: Dict[str, Any], res: core.Res) -> None:
     r = core.rng(case['seed'], 'C17', 'LC', case['k'])
     for _ in range(case['n']):
-        lines = _valid_lines(r, r.randint(3, 9))
+        many = r.random() < .3
+        lines = _valid_lines(r, r.randint(3, 9) if not many else r.randint(14, 40))
         inv0, log0 = _load([('http://h/objects.inv', _inv(lines))])
         names = [l.split(' ')[0] for l in lines]
         before = {n: inv0.getLink(n) for n in names}
@@ -288,6 +289,14 @@ def _run_LC(case: Dict[str, Any], res: core.Res) -> None:
         bad, mut = _corrupt(r, lines[i])
         lines2 = list(lines)
         lines2[i] = bad
+        damaged = {i: bad}
+        if many:
+            # many damaged lines in one inventory (anywhere: before, between and after the intact ones)
+            for i2 in r.sample(range(len(lines)), r.randint(2, min(25, len(lines) - 2))):
+                if i2 != i:
+                    damaged[i2] = _corrupt(r, lines[i2])[0]
+                    lines2[i2] = damaged[i2]
+            res.c('inventories_with_many_damaged_lines')
         res.c('line_corruptions')
         res.c('evaluations')
         res.setadd('mutations', mut)
@@ -299,18 +308,18 @@ def _run_LC(case: Dict[str, Any], res: core.Res) -> None:
             continue
         res.distinct(f'{mut}:{bad[:40]}')
         for j, n in enumerate(names):
-            if j == i:
+            if j in damaged:
                 continue
             res.c('other_lines_checked')
             if inv1.getLink(n) != before[n]:
                 # a corrupted line may legitimately re-define another line's name only if it now carries that name
-                if bad.split(' ')[0] == n or (len(bad.splitlines()) > 1):
+                if any(b.split(' ')[0] == n or (len(b.splitlines()) > 1) for b in damaged.values()):
                     continue
                 res.v('C17:other-line-affected', f'corrupting line {i} ({mut}: {bad!r}) changed {n}: {before[n]!r} -> {inv1.getLink(n)!r}', lines=lines2, mutation=mut)
         # silently dropped?
         reported = any(t < 0 for _, _, t in log1)
         nlinks = len(inv1._links)
-        if nlinks < len(lines) and not reported:
+        if nlinks < len(lines) and not reported and len(damaged) == 1:
             sub = bad.splitlines() or ['']
             legit = True
             for s in sub:
